@@ -83,6 +83,9 @@ def gen(rng, tier):
             c = {"op": k, "clzs": m}
             if k == "evaluate":
                 c["identifiers"] = m if rng.random() < 0.7 else rand_model(rng)
+            if k in ("evaluate", "concept") and rng.random() < (0.2 if tier == "quick" else 0.08):
+                # through the real `coca evaluate` / `coca concept` in a fresh process: coca_reporter/evaluate.json, the printed table
+                c["cli"] = True
             if k == "count" and rng.random() < (0.5 if tier == "quick" else 0.25):
                 # the listing as printed by the real `coca count`, three fresh processes (its order must be reproducible)
                 c["cliRuns"] = 3
@@ -143,6 +146,8 @@ def oracle(case, out, raw):
         return [("panic", "%s panicked: %s" % (case["op"], (raw or {}).get("panic")))]
     ds = []
     clzs = case["clzs"]
+    if "reportUnreadable" in out:
+        return [("evaluate-report-unreadable", out["reportUnreadable"])]
     if case["op"] == "count":
         decl = set(c["Package"] + "." + c["NodeName"] + "." + f["Name"] for c in clzs for f in c.get("Functions") or [])
         exp = {}
@@ -199,7 +204,7 @@ def nontrivial(case, mo):
 
 RULE = ("random code models (1-4 classes incl. *Util*/*Service* names, 0-5 methods from a pool of camel-case shapes with acronyms/digits/underscores, "
         "modifier subsets, Nullable/CheckForNull/IsReturnNull, calls to declared/undeclared/creation/empty-NodeName callees) x {count, evaluate, concept}; "
-        "half of the count cases (a quarter in the thorough tier) also run the REAL `coca count -d deps.json` three times in fresh processes; plus ALL 5040 permutations of the 7 modifiers (and the same without static) through evaluate once per run; non-trivial = non-empty report")
+        "a fifth of the evaluate / concept cases go through the real `coca evaluate` (coca_reporter/evaluate.json) / `coca concept` (printed table); half of the count cases (a quarter in the thorough tier) also run the REAL `coca count -d deps.json` three times in fresh processes; plus ALL 5040 permutations of the 7 modifiers (and the same without static) through evaluate once per run; non-trivial = non-empty report")
 ASSUMPTIONS = ["method names are ASCII (strcase indexes bytes); the oracle's word splitter is an independent reading of strcase.ToDelimited",
                "floating-point fields of the summary (standard deviations) are not compared",
                "IsReturnNull / Modifiers as delivered by the identifier pass are inputs here; their extraction from source is covered by the Java front-end checks"]
